@@ -221,12 +221,12 @@ pub fn run(args: &Args, report: &Report) {
         }
     });
     if args.replay.is_none() {
-        report.require("c01.blocks_validated_identically", args.by_tier(500, 5_000));
-        report.require("c01.nontrivial_blocks", args.by_tier(300, 3_000));
-        report.require("c01.outcome.failed", args.by_tier(100, 1_000));
-        report.require("c01.step.call_store", args.by_tier(100, 1_000));
-        report.require("c01.tx.Create", args.by_tier(50, 500));
-        report.require("c01.blocks_fake_coins", args.by_tier(50, 500));
+        report.require("c01.blocks_validated_identically", args.by_tier(2500, 25000));
+        report.require("c01.nontrivial_blocks", args.by_tier(2500, 25000));
+        report.require("c01.outcome.failed", args.by_tier(4000, 40000));
+        report.require("c01.step.call_store", args.by_tier(5800, 58000));
+        report.require("c01.tx.Create", args.by_tier(1900, 19000));
+        report.require("c01.blocks_fake_coins", args.by_tier(510, 5100));
     }
     report.finish(
         args,
